@@ -651,8 +651,9 @@ Section Wrapper.
         rewrite enumerate_nth by exact L. cbn [fst snd]. rewrite M.
         unfold pack_shots. apply exp_pack_gen.
         intros s Hs. specialize (R idx s L Hs). cbn beta in R. fold G in R. rewrite M in R. exact R.
-      + rewrite !nth_overflow; [reflexivity|exact Ge|].
-        rewrite map_length, enumerate_length. exact Ge.
+      + rewrite (nth_overflow pubs) by exact Ge.
+        rewrite (nth_overflow (map _ (enumerate pubs))) by (rewrite map_length, enumerate_length; exact Ge).
+        reflexivity.
   Qed.
 
   Definition pack_pd (pd : part * pdata) : part * pdata := (fst pd, pack (fst pd) (snd pd)).
@@ -667,17 +668,7 @@ Section Wrapper.
   Qed.
 
   (* ---- equivalent keys ---- *)
-  Definition kp_equiv (a b : key * Q) : Prop :=
-    outcome_to_int pyint0 (fst a) = outcome_to_int pyint0 (fst b) /\ snd a = snd b.
-
-  Definition data_equiv (d d' : pdata) : Prop :=
-    match d, d' with
-    | DV1 q, DV1 q' => Forall2 (Forall2 kp_equiv) q q'
-    | DV2 p, DV2 p' => p = p'
-    | _, _ => False
-    end.
-
-  Lemma exp_v1_keys c qd qd' : Forall2 kp_equiv qd qd' ->
+  Lemma exp_v1_keys c qd qd' : Forall2 (kp_equiv pyint0) qd qd' ->
     forall acc, exp_v1 pyint0 c qd acc = exp_v1 pyint0 c qd' acc.
   Proof.
     induction 1 as [|[k p] [k' p'] r r' [E1 E2] F IH]; intros acc; [reflexivity|].
@@ -691,7 +682,7 @@ Section Wrapper.
     intros Pd. induction 1 as [|x y r r' Pxy F IH]; intros [|n]; cbn [nth]; auto.
   Qed.
 
-  Lemma exp_equiv_keys p d d' : data_equiv d d' -> exp_equiv p d d'.
+  Lemma exp_equiv_keys p d d' : data_equiv pyint0 d d' -> exp_equiv p d d'.
   Proof.
     destruct d as [q|pb], d' as [q'|pb']; cbn [data_equiv]; intros H; try contradiction.
     - split.
@@ -702,7 +693,7 @@ Section Wrapper.
   Qed.
 
   Lemma reconstruct_parts_keys nobs coeffs pds pds' :
-    Forall2 (fun pd pd' => fst pd = fst pd' /\ data_equiv (snd pd) (snd pd')) pds pds' ->
+    Forall2 (fun pd pd' => fst pd = fst pd' /\ data_equiv pyint0 (snd pd) (snd pd')) pds pds' ->
     reconstruct_parts pyint0 nobs coeffs pds = reconstruct_parts pyint0 nobs coeffs pds'.
   Proof.
     intros F. apply reconstruct_parts_equiv.
@@ -776,3 +767,73 @@ Section Wrapper.
         apply existsb_exists; exists l; (split; [apply K, Hl|apply Nat.eqb_refl]).
   Qed.
 End Wrapper.
+
+Section PublicRefusals.
+  Variable pyint0 : list ascii -> option N.
+
+  Lemma reconstruct_types_refused coeffs :
+    (forall p m, reconstruct pyint0 (RMap m) coeffs (OList p) = Refused) /\
+    (forall p, reconstruct pyint0 ROther coeffs (OList p) = Refused) /\
+    (forall ps d, reconstruct pyint0 (RLeaf d) coeffs (OMap ps) = Refused) /\
+    (forall ps, reconstruct pyint0 ROther coeffs (OMap ps) = Refused) /\
+    (forall r, reconstruct pyint0 r coeffs OOther = Refused).
+  Proof. repeat split; reflexivity. Qed.
+
+  Lemma reconstruct_keyset_refused coeffs ps m :
+    (exists l, In l (map plabel ps) /\ ~ In l (map fst m)) \/
+    (exists l, In l (map fst m) /\ ~ In l (map plabel ps)) ->
+    reconstruct pyint0 (RMap m) coeffs (OMap ps) = Refused.
+  Proof. intros H. unfold reconstruct. rewrite (same_keys_false _ _ H). reflexivity. Qed.
+
+  Lemma reconstruct_phase_refused coeffs :
+    (forall p d, (exists x, In x (pphases p) /\ x <> 0) ->
+       reconstruct pyint0 (RLeaf d) coeffs (OList p) = Refused) /\
+    (forall ps m, (exists p x, In p ps /\ In x (pphases p) /\ x <> 0) ->
+       reconstruct pyint0 (RMap m) coeffs (OMap ps) = Refused).
+  Proof.
+    split.
+    - intros p d H. unfold reconstruct. rewrite (phases_bad_true _ H). reflexivity.
+    - intros ps m [p [x [Hp [Hx NZ]]]]. unfold reconstruct.
+      destruct (negb (same_keys _ _)); [reflexivity|].
+      replace (existsb (fun p => phases_bad (pphases p)) ps) with true; [reflexivity|].
+      symmetry. apply existsb_exists. exists p. split; [exact Hp|].
+      apply phases_bad_true. exists x. split; assumption.
+  Qed.
+
+  Lemma reconstruct_list_valid coeffs p d : (forall x, In x (pphases p) -> x = 0) ->
+    reconstruct pyint0 (RLeaf d) coeffs (OList p)
+    = reconstruct_parts pyint0 (length (plookup p)) coeffs [(p, d)].
+  Proof. intros H. unfold reconstruct. rewrite (phases_bad_false _ H). reflexivity. Qed.
+End PublicRefusals.
+
+(* the estimator theorem with its hypotheses spelled out *)
+Lemma estimator_full pyint0 den nobs coeffs pds :
+  (forall pd, In pd pds -> data_len (snd pd) = length coeffs * length (pgroups (fst pd))) ->
+  (forall pd, In pd pds -> length (plookup (fst pd)) = nobs /\ locs_ok (fst pd)) ->
+  (forall pd k, In pd pds -> In k (keys_of (snd pd)) -> outcome_to_int pyint0 k = Some (den k)) ->
+  res_Qeq (reconstruct_parts pyint0 nobs coeffs pds)
+          (Ok (map (estimator den coeffs pds) (seq 0 nobs))).
+Proof.
+  intros H1 H2 H3. apply reconstruct_parts_estimator.
+  - apply Forall_forall. exact H1.
+  - apply Forall_forall. intros pd Hpd. destruct (H2 pd Hpd) as [A B].
+    split; [exact A|]. split; [exact B|]. intros k Hk. apply (H3 pd k Hpd Hk).
+Qed.
+
+Lemma v1_v2_full pyint0 nobs coeffs pds :
+  (forall pd, In pd pds -> obs_in_range (fst pd) (snd pd)) ->
+  reconstruct_parts pyint0 nobs coeffs (map (fun pd => (fst pd, pack (fst pd) (snd pd))) pds)
+  = reconstruct_parts pyint0 nobs coeffs pds.
+Proof. intros H. apply (reconstruct_parts_pack pyint0). apply Forall_forall. exact H. Qed.
+
+Lemma keys_full pyint0 : pyint0_contract pyint0 ->
+  (forall n, outcome_to_int pyint0 (KInt n) = Some n) /\
+  (forall s, key_chars s <> [] -> forallb (digit_ok 2) (key_chars s) = true ->
+     outcome_to_int pyint0 (KStr s) = Some (radix_value 2 (key_chars s))) /\
+  (forall s ds, key_chars s = "0"%char :: "b"%char :: ds -> ds <> [] -> forallb (digit_ok 2) ds = true ->
+     outcome_to_int pyint0 (KStr s) = Some (radix_value 2 ds)) /\
+  (forall s hs, key_chars s = "0"%char :: "x"%char :: hs -> hs <> [] -> forallb (digit_ok 16) hs = true ->
+     outcome_to_int pyint0 (KStr s) = Some (radix_value 16 hs)).
+Proof.
+  intros C. split; [reflexivity|]. split; [apply key_binary, C|]. split; [apply key_0b, C|apply key_0x, C].
+Qed.
